@@ -273,7 +273,7 @@ void Hll4Array<A>::shiftToBiggerCurMin() {
 
   // If old AuxHashMap exists, walk through it updating some slots and build a new AuxHashMap
   // if needed.
-  AuxHashMap<A>* newAuxMap = nullptr;
+  std::unique_ptr<AuxHashMap<A>, std::function<void(AuxHashMap<A>*)>> newAuxMap(nullptr, AuxHashMap<A>::make_deleter()); // released on throw
   if (auxHashMap_ != nullptr) {
     uint32_t slotNum;
     uint8_t oldActualVal;
@@ -302,8 +302,8 @@ void Hll4Array<A>::shiftToBiggerCurMin() {
       } else { //newShiftedVal >= AUX_TOKEN
         // the former exception remains an exception, so must be added to the newAuxMap
         if (newAuxMap == nullptr) {
-          newAuxMap = AuxHashMap<A>::newAuxHashMap(hll_constants::LG_AUX_ARR_INTS[this->lgConfigK_],
-              this->lgConfigK_, this->getAllocator());
+          newAuxMap.reset(AuxHashMap<A>::newAuxHashMap(hll_constants::LG_AUX_ARR_INTS[this->lgConfigK_],
+              this->lgConfigK_, this->getAllocator()));
         }
         newAuxMap->mustAdd(slotNum, oldActualVal);
       }
@@ -325,7 +325,7 @@ void Hll4Array<A>::shiftToBiggerCurMin() {
   if (auxHashMap_ != nullptr) {
     AuxHashMap<A>::make_deleter()(auxHashMap_);
   }
-  auxHashMap_ = newAuxMap;
+  auxHashMap_ = newAuxMap.release();
 
   this->curMin_ = newCurMin;
   this->numAtCurMin_ = numAtNewCurMin;
